@@ -16,18 +16,19 @@ for mid, fil, old, new in items:
     if only and mid not in only:
         continue
     subprocess.run(['git', '-C', WT, 'checkout', '-q', '--', '.'], check=True)
-    p = os.path.join(WT, fil)
-    s = open(p).read()
-    occ = 1
-    if old.startswith('@2:'):
-        occ, old = 2, old[3:]
-    if occ == 1:
-        assert s.count(old) == 1, mid
-        s = s.replace(old, new)
-    else:
-        i = s.index(old); i = s.index(old, i + 1)
-        s = s[:i] + new + s[i + len(old):]
-    open(p, 'w').write(s)
+    for efile, eold, enew, eall in (old if fil is None else [(fil, old, new, False)]):
+        p = os.path.join(WT, efile)
+        s = open(p).read()
+        occ = 1
+        if eold.startswith('@2:'):
+            occ, eold = 2, eold[3:]
+        if eall or occ == 1:
+            assert eall or s.count(eold) == 1, mid
+            s = s.replace(eold, enew)
+        else:
+            i = s.index(eold); i = s.index(eold, i + 1)
+            s = s[:i] + enew + s[i + len(eold):]
+        open(p, 'w').write(s)
     subprocess.run('find src -name "*.rs" -exec touch {} +', shell=True, cwd=WT)
     r = subprocess.run(['cargo', 'test', '--lib', '--offline'], cwd=WT, env=env, capture_output=True, text=True)
     line = [l for l in r.stdout.splitlines() if l.startswith('test result')]
